@@ -451,27 +451,54 @@ pub struct SrvCfg {
     pub extended_connect: Option<bool>,
     pub datagram: Option<bool>,
     pub max_wt_sessions: Option<u64>,
+    /// the order in which the builder methods are called (0 = as listed; what is configured must
+    /// not depend on it)
+    pub call_order: u8,
 }
 impl SrvCfg {
     pub fn builder(&self) -> h3::server::Builder {
         let mut b = h3::server::builder();
-        if let Some(v) = self.max_field_section_size {
-            b.max_field_section_size(v);
+        let mut calls: [u8; 6] = [0, 1, 2, 3, 4, 5];
+        if self.call_order != 0 {
+            let mut x = (self.call_order as u32).wrapping_mul(2654435761);
+            for i in (1..calls.len()).rev() {
+                x = x.wrapping_mul(1664525).wrapping_add(1013904223);
+                calls.swap(i, (x >> 16) as usize % (i + 1));
+            }
         }
-        if let Some(v) = self.grease {
-            b.send_grease(v);
-        }
-        if let Some(v) = self.webtransport {
-            b.enable_webtransport(v);
-        }
-        if let Some(v) = self.extended_connect {
-            b.enable_extended_connect(v);
-        }
-        if let Some(v) = self.datagram {
-            b.enable_datagram(v);
-        }
-        if let Some(v) = self.max_wt_sessions {
-            b.max_webtransport_sessions(v);
+        for c in calls {
+            match c {
+                0 => {
+                    if let Some(v) = self.max_field_section_size {
+                        b.max_field_section_size(v);
+                    }
+                }
+                1 => {
+                    if let Some(v) = self.grease {
+                        b.send_grease(v);
+                    }
+                }
+                2 => {
+                    if let Some(v) = self.webtransport {
+                        b.enable_webtransport(v);
+                    }
+                }
+                3 => {
+                    if let Some(v) = self.extended_connect {
+                        b.enable_extended_connect(v);
+                    }
+                }
+                4 => {
+                    if let Some(v) = self.datagram {
+                        b.enable_datagram(v);
+                    }
+                }
+                _ => {
+                    if let Some(v) = self.max_wt_sessions {
+                        b.max_webtransport_sessions(v);
+                    }
+                }
+            }
         }
         b
     }
